@@ -1,7 +1,7 @@
 #!/bin/sh
 # runs every claimed check of the given tier; prints one line per property
 tier=${1:-quick}
-cd /verif
+cd "$(dirname "$0")"
 for i in 01 02 03 04 05 06 07 08 09 10 11 12 13 14 15 16 17 18 19 20; do
   s=$(date +%s)
   out=$(timeout 3600 ./check C$i $tier 2>&1); rc=$?
